@@ -307,10 +307,33 @@ def np_array(ex, st, v, **kw):
     raise Unsupported('np.array of %r' % (v,))
 
 
-def np_asarray(ex, st, v, **kw):
+def np_asarray(ex, st, v, *a, **kw):
+    if a:
+        kw = dict(kw, dtype=a[0])
     if isinstance(v, NDRef):
-        return v
-    return np_array(ex, st, v, **kw)
+        # the SAME object when no conversion is needed; a float64 / int64 / bool array asked for another width is a copy
+        dt = kw.get('dtype')
+        wide = {'real': ('builtins.float', 'np.float64', 'np.float'), 'int': ('builtins.int', 'np.int64', 'np.int'),
+                'bool': ('builtins.bool', 'np.bool_')}.get(as_array(st, v).dtype, ())
+        if dt is None or (isinstance(dt, Opaque) and dt.name in wide):
+            return v
+        return np_array(ex, st, v)
+    return np_array(ex, st, v)
+
+
+def np_linspace(ex, st, lo, hi, num=50, **kw):
+    # num samples, the first is `lo`, the last is set to `hi` exactly (endpoint=True), the others lo + i * (hi - lo) / (num - 1)
+    if kw.get('endpoint', True) is not True or any(k not in ('endpoint', '_node') for k in kw):
+        raise Unsupported('np.linspace with %r' % sorted(kw))
+    n = num
+    lo_, hi_ = to_real(lo), to_real(hi)
+    step = s_truediv(s_sub(hi_, lo_), to_real(s_sub(n, 1)))
+
+    def get(i):
+        mid = s_add(lo_, s_mul(to_real(i), step))
+        return ite(s_eq(i, 0), lo_, ite(s_eq(i, s_sub(n, 1)), hi_, mid))
+    cnt = ite(s_lt(n, 0), 0, n) if not is_conc_num(n) else max(n, 0)
+    return _new_buffer(st, ArrayVal((cnt,), get, 'real'))
 
 
 def np_arange(ex, st, *args, **kw):
@@ -848,7 +871,7 @@ LIB = {
     'np.logical_and': _logical(band), 'np.logical_or': _logical(bor), 'np.logical_not': _logical(bnot),
     'np.exp': np_exp, 'math.exp': np_exp, 'np.logaddexp': np_logaddexp, 'np.nonzero': np_nonzero,
     'torch.cat': torch_cat, 'torch.argmax': torch_argmax, 'np.ceil': np_ceil, 'np.floor': np_floor, 'np.argpartition': np_argpartition, 'itertools.groupby': itertools_groupby, 'np.unravel_index': np_unravel_index, 'math.ceil': np_ceil, 'math.floor': np_floor,
-    'np.array': np_array, 'np.asarray': np_asarray, 'np.fromiter': lambda ex, st, v, **kw: np_array(ex, st, v), 'np.arange': np_arange, 'np.full': np_full,
+    'np.array': np_array, 'np.asarray': np_asarray, 'np.fromiter': lambda ex, st, v, **kw: np_array(ex, st, v), 'np.arange': np_arange, 'np.linspace': np_linspace, 'np.full': np_full,
     'np.ones': np_ones, 'np.zeros': np_zeros, 'np.zeros_like': np_zeros_like, 'np.minimum': np_minimum,
     'np.maximum': np_maximum, 'np.copy': np_copy, 'np.sum': np_sum, 'np.any': np_any, 'np.all': np_all,
     'np.argmax': np_argmax, 'np.argmin': np_argmin, 'np.max': np_max, 'np.amax': np_max, 'np.min': np_min,
@@ -1136,8 +1159,18 @@ def call_method(ex, st, obj, name, args, kwargs, node):
             return np_ravel(ex, st, obj)
         if name == 'tolist':
             return as_array(st, obj)
-        if name in ('astype', 'cpu', 'numpy', 'detach', 'contiguous'):
+        if name == 'astype':
+            return np_copy(ex, st, obj) if isinstance(obj, NDRef) and kwargs.get('copy', True) is True else obj   # astype copies
+        if name in ('cpu', 'numpy', 'detach', 'contiguous'):
             return obj
+        if name == 'reshape' and len(args) in (1, 2):
+            shp = tuple(args[0]) if len(args) == 1 and isinstance(args[0], (tuple, list)) else tuple(args)
+            arr = as_array(st, obj)
+            if arr.ndim == 1 and shp == (-1, 1):
+                return _new_buffer(st, ArrayVal((arr.shape[0], 1), lambda i, j, arr=arr: arr.get(i), arr.dtype))
+            if arr.ndim == 1 and shp == (1, -1):
+                return _new_buffer(st, ArrayVal((1, arr.shape[0]), lambda i, j, arr=arr: arr.get(j), arr.dtype))
+            raise Unsupported('reshape to %r' % (shp,))
         raise Unsupported('array method %s' % name)
     if isinstance(obj, DictVal) and name == 'keys' and not args and getattr(obj, 'keys_arr', None) is None:
         return SetVal(lambda x: obj.has(x))           # membership view of the keys (`k in d.keys()` is `k in d`)
